@@ -598,8 +598,9 @@ func main() {
 	w("\n-- decision lists of the buffer and of the escaping scanner\n")
 	escapeGo := parse("internal/escape/escape.go")
 	builderGo := parse("builder/builder.go")
+	utilGo := parse("util.go")
 	extra := map[string]*ast.FuncDecl{}
-	for _, f := range []*ast.File{escapeGo, builderGo} {
+	for _, f := range []*ast.File{escapeGo, builderGo, utilGo} {
 		for _, d := range f.Decls {
 			if fd, ok := d.(*ast.FuncDecl); ok && fd.Body != nil {
 				key := fd.Name.Name
@@ -646,6 +647,7 @@ func main() {
 			callFns = append(callFns, "pp."+fd.Name.Name)
 		}
 	}
+	callFns = append(callFns, "Join", "JoinTo")
 	sort.Strings(callFns)
 	cl := func(n string) []string {
 		if fd, ok := extra[n]; ok {
